@@ -52,6 +52,9 @@ type c05Suspect struct {
 	done    chan struct{}
 	gids    []int64
 	frozen  func() interface{}
+	// progress counts completed calls of the suspected workload; a hang is
+	// only confirmed if it does not move during the whole confirmation window
+	progress func() int64
 }
 
 type c05State struct {
@@ -135,6 +138,10 @@ func (st *c05State) confirm() {
 		return
 	}
 	time.Sleep(1 * time.Second)
+	before := map[*c05Suspect]int64{}
+	for _, s := range st.suspects {
+		before[s] = s.progress()
+	}
 	type obs struct {
 		callee string
 		n      int
@@ -172,6 +179,12 @@ func (st *c05State) confirm() {
 			fmt.Fprintf(os.Stderr, "c05: suspect finished late, class %s\n", s.Class)
 			continue
 		default:
+		}
+		if s.progress() != before[s] {
+			// still completing calls: slow (loaded machine), not hung
+			r.Count("suspects_still_progressing", 1)
+			fmt.Fprintf(os.Stderr, "c05: suspect still progressing, class %s\n", s.Class)
+			continue
 		}
 		spin := ""
 		blocked := 0
@@ -241,7 +254,7 @@ func (p *c05Probe) class() string {
 	return s
 }
 
-func (p *c05Probe) run(r *vkit.Run) {
+func (p *c05Probe) run(r *vkit.Run, calls *int64) {
 	brr := bal_slb.NewBalanceRR("s")
 	if p.Build == "update" {
 		brr.Update(confOf(p.Backends))
@@ -263,6 +276,7 @@ func (p *c05Probe) run(r *vkit.Run) {
 		if try(r, func() interface{} { return p }, func() { brr.Balance(p.Alg, []byte{byte(k), 7}) }) {
 			return
 		}
+		atomic.AddInt64(calls, 1)
 	}
 }
 
@@ -329,6 +343,7 @@ func c05Sequential(st *c05State, probes []*c05Probe) (wait func()) {
 		class string
 		ps    []*c05Probe
 		prog  int64
+		calls int64
 		gid   int64
 		done  chan struct{}
 	}
@@ -340,7 +355,7 @@ func c05Sequential(st *c05State, probes []*c05Probe) (wait func()) {
 			atomic.StoreInt64(&b.gid, goid())
 			for i, p := range b.ps {
 				atomic.StoreInt64(&b.prog, int64(i))
-				p.run(r)
+				p.run(r, &b.calls)
 				r.CaseS(fmt.Sprintf("probe|%d|%s|%v|%v", p.Alg, p.Build, p.Backends, p.Down), len(p.Backends) >= 2)
 				r.Count("sequential_probes", 1)
 				r.Count("sequential_calls", int64(p.Calls))
@@ -367,7 +382,8 @@ func c05Sequential(st *c05State, probes []*c05Probe) (wait func()) {
 					}
 					p := b.ps[cur]
 					st.suspect(&c05Suspect{Class: "sequential:" + b.class, done: b.done, gids: []int64{atomic.LoadInt64(&b.gid)},
-						Witness: map[string]interface{}{"probe": p, "single_threaded": true, "skipped_probes_of_class": len(b.ps) - int(cur) - 1}})
+						progress: func() int64 { return atomic.LoadInt64(&b.calls) },
+						Witness:  map[string]interface{}{"probe": p, "single_threaded": true, "skipped_probes_of_class": len(b.ps) - int(cur) - 1}})
 					r.Count("sequential_probes_behind_a_suspected_hang", int64(len(b.ps)-int(cur)-1))
 				}
 				break
@@ -646,7 +662,7 @@ func c05Run(st *c05State, h *c05Hist) bool {
 				ids = append(ids, atomic.LoadInt64(&gids[w]))
 			}
 		}
-		st.suspect(&c05Suspect{Class: class, done: done, gids: ids, frozen: ptrs.view,
+		st.suspect(&c05Suspect{Class: class, done: done, gids: ids, frozen: ptrs.view, progress: func() int64 { return atomic.LoadInt64(&seq) },
 			Witness: map[string]interface{}{"history": h, "ops_in_flight": inflight, "mutators_still_running": atomic.LoadInt64(&mutatorsLeft)}})
 		return false
 	}
@@ -722,6 +738,7 @@ func c05Drain(st *c05State, idx int) bool {
 		return true
 	case <-time.After(6 * time.Second):
 		st.suspect(&c05Suspect{Class: "concurrent:WrrSimple:all-backends-marked-unavailable-during-rescan", done: done, gids: []int64{atomic.LoadInt64(&gidA)},
+			progress: func() int64 { return atomic.LoadInt64(&prog) },
 			frozen: func() interface{} {
 				var out []string
 				for _, b := range bks {
@@ -737,7 +754,7 @@ func c05Drain(st *c05State, idx int) bool {
 
 func c05(r *vkit.Run) {
 	r.RaceScope("bfe_balance/")
-	r.SetRule("part 1 (sequential totality): every list of 0-3 backends with weight in {-1,0,1,2} x available/unavailable, built by Init or Update, x all 5 algorithms x (50 + 100*sum of pickable weights) calls, each class (algorithm, list shape) in its own watchdogged goroutine. part 2 (concurrent): histories with G in {4,16,64} goroutines on one shared balancer: family gslb (BalanceGslb: Balance, SetAvail, Inc/DecConnNum, Reload, BackendReload with lists of 0/1/2/8, SetSlowStart, SetGslbBasic, State), family rr (BalanceRR: Balance with WrrSmooth/WrrSticky/WlcSimple/WlcSmooth, SetAvail, Inc/DecConnNum, Update, SetSlowStart), family rr-simple (adds WrrSimple; lists non-empty, weights positive); a quarter of the goroutines are mutators. part 3: steered trials where every backend is marked unavailable while WrrSimple rescans after its credits ran out. Monitors: race detector (scope bfe_balance/), recovered panics, termination after quiescence (all mutators finished; call still running at the end of the run in 5/5 stack samples). Non-trivial = history with >=2 goroutines or probe with >=2 backends; distinct = interleaving fingerprint (completion order of all ops) / probe")
+	r.SetRule("part 1 (sequential totality): every list of 0-3 backends with weight in {-1,0,1,2} x available/unavailable, built by Init or Update, x all 5 algorithms x (50 + 100*sum of pickable weights) calls, each class (algorithm, list shape) in its own watchdogged goroutine. part 2 (concurrent): histories with G in {4,16,64} goroutines on one shared balancer: family gslb (BalanceGslb: Balance, SetAvail, Inc/DecConnNum, Reload, BackendReload with lists of 0/1/2/8, SetSlowStart, SetGslbBasic, State), family rr (BalanceRR: Balance with WrrSmooth/WrrSticky/WlcSimple/WlcSmooth, SetAvail, Inc/DecConnNum, Update, SetSlowStart), family rr-simple (adds WrrSimple; lists non-empty, weights positive); a quarter of the goroutines are mutators. part 3: steered trials where every backend is marked unavailable while WrrSimple rescans after its credits ran out. Monitors: race detector (scope bfe_balance/), recovered panics, termination after quiescence (all mutators finished; at the end of the run the call has still not returned, completes nothing during the confirmation window and is seen running in the same bfe frame in 5/5 stack samples). Non-trivial = history with >=2 goroutines or probe with >=2 backends; distinct = interleaving fingerprint (completion order of all ops) / probe")
 	r.Assume("interleavings are sampled, not enumerated; a hang is only reported for a state that no goroutine changes any more")
 	st := &c05State{r: r, hung: map[string]bool{}}
 	if r.Replay != "" {
